@@ -12,7 +12,10 @@ EXPLANATION = (
     'info/*.trashinfo path I: every path from the entry to it passes a node that '
     'handles the payload pbc(I) first (MOVE out of the trash, DELETE of pbc(I), or a '
     'no-follow presence probe of pbc(I) answering "absent"); the info DELETE is not '
-    'reachable from the exceptional exits of the MOVE; payload DELETEs are '
+    'reachable from the exceptional exits of the MOVE, and in trash-rm blocking the '
+    'normal exits of the payload removals cuts it off (no finally / handler that goes on '
+    'to the info); no payload removal ignores its errors (rmtree ignore_errors/onerror); '
+    'payload DELETEs are '
     'existence-tolerant so that a re-run completes; orphan payloads are in empty\'s '
     'delete set.  Decides the order of effects at every crash point; does not decide '
     'intermediate states inside one shutil.move / rmtree call (stdlib).')
